@@ -141,6 +141,7 @@ Frame_G(w, c, f, id, i, k) ==
        [] f = "error" ->
             /\ i \in Insts(w) /\ w.I[i].id = id
             /\ w.I[i].cp = 0                                    \* nothing after a completion
+            /\ w.I[i].nx = w.I[i].em                            \* results first, then the termination
             /\ \/ w.I[i].er = 0
                \/ AllowDoubleError /\ w.I[i].er = 1 /\ w.I[i].xk = "sp"
             /\ \/ w.I[i].kind = "bad"
@@ -148,6 +149,7 @@ Frame_G(w, c, f, id, i, k) ==
        [] f = "complete" ->
             /\ i \in Insts(w) /\ w.I[i].id = id
             /\ w.I[i].cp = 0                                    \* at most one completion
+            /\ w.I[i].nx = w.I[i].em                            \* results first, then the termination
             /\ \/ w.I[i].kind = "bad"
                \/ w.I[i].src = "exited"
        [] OTHER -> FALSE
@@ -164,6 +166,7 @@ Frame_F(w, f, id, i, k) ==
 \* demands and it did not happen while the connection stayed open.
 \*   stop-cancel(i)  stop(id) was sent, Source i of that id still has not seen ctx.Done
 \*   termination(i)  Source i ended by itself, neither error nor complete arrived
+\*   delivery(i)     a value Source i returned was never delivered
 \*   end             the connection must end (client sent a closing message) and did not
 \* The property never admits a Stall; the named deviations do, in their situation:
 OtherOfId(w, i) == OfId(w, w.I[i].id) \ {i}
